@@ -113,6 +113,30 @@ def make_world(seed, jitter):
                 r = w.read_from_transcript(t, mode="full", jitter=0, polya=False)
                 if r is not None:
                     r.truth["class"] = "hidden-isoform"
+    # isoform pairs that share their intron chain and differ only in the 3' end (300 bp apart): tailed and tail-less reads of both, full
+    # length and 5'-truncated; a tail at the short isoform's end says which of the two the read comes from
+    from vlib.world import Gene as _Gene, Transcript as _Transcript
+    for ci, chrom in enumerate(w.chrom_order):
+        pos = max([g.end for g in w.genes if g.chrom == chrom] + [1000]) + 2500
+        for k, strand in enumerate("+-"):
+            if pos + 7000 > w.chrom_len(chrom):
+                break
+            e = [(pos + 400, pos + 700), (pos + 1300, pos + 1550), (pos + 2200, pos + 2500), (pos + 3200, pos + 3700)]
+            long_ = [(e[0][0] - 300, e[0][1])] + e[1:] if strand == "-" else e[:-1] + [(e[-1][0], e[-1][1] + 300)]
+            gid = "APA%d_%d" % (ci + 1, k + 1)
+            g = _Gene(gid, chrom, strand)
+            g.transcripts.append(_Transcript(gid + ".short", gid, chrom, strand, list(e), True, "apa-pair"))
+            g.transcripts.append(_Transcript(gid + ".long", gid, chrom, strand, long_, True, "apa-pair"))
+            for intr in g.transcripts[0].introns:
+                w.plant_sites(chrom, intr, strand)
+            w.genes.append(g)
+            for t in g.transcripts:
+                for mode in ("full", "full", "trunc5", "trunc5"):
+                    for tailed in (True, False):
+                        r = w.read_from_transcript(t, mode=mode, jitter=0, polya=tailed, flag=0 if strand == "+" else 16)
+                        if r is not None:
+                            r.truth["class"] = "conforming"
+            pos += 4200 + 2500
     # NAGNAG-like loci: two annotated isoforms whose introns differ by 1..delta bp at ONE boundary (left or right); error-free
     # reads of either isoform must still name their own isoform
     if jitter > 0:
